@@ -71,6 +71,7 @@ type Frame struct {
 	boxes     map[string]Val
 	recvRef   string
 	reachCond string
+	view      string // abstract view selected for callee contracts (top-level frame)
 	savedDefers []deferRec // the caller's pending defers while this (inlined) frame runs
 }
 
